@@ -20,6 +20,9 @@ pub mod verif_prelude {
         requires old(s)@.len() == src@.len(),
         ensures final(s)@ == src@;
 
+    pub assume_specification<T: Clone>[ <[T]>::to_vec ](s: &[T]) -> (r: Vec<T>)
+        ensures r@ == s@;
+
     pub assume_specification<T>[ <[T]>::reverse ](s: &mut [T])
         ensures final(s)@ == old(s)@.reverse();
 
